@@ -62,7 +62,7 @@ def iterate(it):
 
 def state_str(p, sleeps):
     return 'closed=%d queue=%s log=%s sleeps=%d' % (1 if p.closed else 0, ','.join(str(portsim.ident(m)) for m in p._messages),
-                                                    ','.join(p.log), sleeps)
+                                                    ','.join(x for x in p.log if x != '<'), sleeps)
 
 
 def run_history(case):
@@ -96,7 +96,7 @@ def run_history(case):
                         fail = 'send raised ValueError on an open port'
                 except Exception as e:
                     lines.append('err ' + exc_name(e))
-                    gone = spec.get('budget') is not None and sent_ok >= spec['budget'] and isinstance(e, OSError)
+                    gone = spec.get('budget') is not None and sum(1 for x in p.log if x.startswith('s')) >= spec['budget'] and isinstance(e, OSError)
                     if not gone:
                         fail = fail or f'send raised {type(e).__name__}'
             elif k in ('receive', 'poll'):
@@ -127,6 +127,20 @@ def run_history(case):
                 handed_out += [int(x) for x in o.split(' ')[1].split(',') if x]
                 if not o.endswith('normal') and fail is None:
                     fail = f'iter_pending ended with {o}'
+            elif k == 'reset':
+                try:
+                    was_closed = p.closed
+                    p.reset()
+                    lines.append('ok')
+                    if spec['kind'] == 'echo' and not was_closed:
+                        handed_in += [1000 + i for i in range(32)]      # an EchoPort receives what it sends
+                except OSError:
+                    lines.append('err OSError')
+                    if (spec.get('budget') is None or sum(1 for x in p.log if x.startswith('s')) < spec['budget']) and fail is None:
+                        fail = 'reset() raised OSError on a healthy device'
+                except Exception as e:
+                    lines.append('err ' + exc_name(e))
+                    fail = fail or f'reset() raised {type(e).__name__}'
             elif k == 'close':
                 p.close()
                 lines.append('ok')
@@ -138,16 +152,19 @@ def run_history(case):
                 closed_seen = True
         lines.append(state_str(p, sl.n))
         if fail is None:
+            log = [x for x in p.log if x != '<']
+            mark = p.log.index('<') if '<' in p.log else None
             ncl = p.log.count('C')
             if ncl > 1 or (p.closed and spec['kind'] == 'dev' and ncl != 1):
                 fail = f'device released {ncl} times: log {p.log}'
             resets = [x for x in p.log if x.startswith('s1') and len(x) == 5]
             if spec['kind'] == 'dev' and p.closed:
                 want = ['s%d' % (1000 + i) for i in range(32)] if spec['autoreset'] else []
-                if spec.get('budget') is not None:
+                if spec.get('budget') is not None and mark is not None:
                     # a device that stops accepting messages: the resets it still took, then the release
-                    want = want[:max(0, spec['budget'] - sent_ok)]
-                tail = p.log[-(len(want) + 1):]
+                    taken_before = sum(1 for x in p.log[:mark] if x.startswith('s'))
+                    want = want[:max(0, spec['budget'] - taken_before)]
+                tail = (p.log[mark + 1:] if mark is not None else log[-(len(want) + 1):])
                 if tail != want + ['C']:
                     fail = f'reset messages / release out of order at close: log tail {tail}'
             # drain then stop: once closed, everything taken in is handed out by a final drain
@@ -238,6 +255,31 @@ def reset_independence(iterable_ports=False):
     return None
 
 
+def multi_big_child(n):
+    """A child of a MultiPort takes in n messages and closes itself in the same step: the MultiPort hands out all n."""
+    import mido.ports as P
+    Dev = portsim.make_dev_class()
+    old = P.random.shuffle
+    P.random.shuffle = lambda l: None
+    try:
+        with portsim.patched_sleep():
+            child = Dev('d', script=[(list(range(n)), True)])
+            mp = P.MultiPort([P.EchoPort(), child])
+            got = []
+            for _ in range(5):
+                got += [portsim.ident(m) for m in mp.iter_pending()]
+            while True:
+                m = mp.poll()
+                if m is None:
+                    break
+                got.append(portsim.ident(m))
+        if got != list(range(n)):
+            return f'a child port took in {n} messages and closed itself; the MultiPort handed out {len(got)} of them'
+        return None
+    finally:
+        P.random.shuffle = old
+
+
 def concurrent_case(kind, action):
     """Two real threads: one waits in a blocking receive() / a for-loop on an idle port, the other closes the port or
     makes a message deliverable.  The waiting call must end promptly (2 s watchdog)."""
@@ -315,6 +357,8 @@ def _mchunk(cs):
 
 
 def enc(op):
+    if op[0] == 'reset':
+        return 'lop reset'
     if op[0] == 'send':
         return 'lop send %d' % op[1]
     return 'lop ' + op[0]
@@ -342,9 +386,10 @@ def gen(ck):
                             # the device stops accepting messages before / inside / after the reset loop of close()
                             for budget in (0, 1, 31, 32):
                                 fs = dict(spec, budget=budget)
-                                for tail in (['close', 'close', 'send'], ['iter', 'close', 'exit'], ['send', 'send', 'exit', 'close', 'poll']):
+                                for tail in (['close', 'close', 'send'], ['iter', 'close', 'exit'], ['send', 'send', 'exit', 'close', 'poll'],
+                                             ['reset', 'close'], ['send', 'reset', 'poll', 'close', 'reset']):
                                     cases.append((fs, [(t,) if t != 'send' else ('send', next(n)) for t in tail]))
-                        for tail in (['iter'], ['receive', 'iter'], ['poll', 'poll', 'iter', 'poll'], ['iterpending', 'iter', 'receive'],
+                        for tail in (['reset', 'close', 'send'], ['send', 'reset', 'poll', 'exit'], ['iter'], ['receive', 'iter'], ['poll', 'poll', 'iter', 'poll'], ['iterpending', 'iter', 'receive'],
                                      ['close', 'iter', 'send'], ['iter', 'close', 'close', 'exit', 'send', 'poll']):
                             cases.append((spec, [(t,) if t != 'send' else ('send', next(n)) for t in tail]))
     ck.exhaustive['every self-close position x 0..3 arrivals x 0..3 queued messages x autoreset'] = True
@@ -361,7 +406,7 @@ def gen(ck):
             spec['budget'] = rng.choice([0, 1, 2, 3, 31, 32, 33, 34, 40])
         ops = []
         for _ in range(rng.randint(1, 14)):
-            t = rng.choice(['send', 'receive', 'poll', 'poll', 'iter', 'iterpending', 'close', 'exit'])
+            t = rng.choice(['send', 'receive', 'poll', 'poll', 'iter', 'iterpending', 'close', 'exit', 'reset'])
             if t == 'iter' and rng.random() < 0.5:
                 t = 'poll'
             ops.append(('send', next(n) % 100000) if t == 'send' else (t,))
@@ -432,6 +477,12 @@ def run(ck):
     model = ck.driver.run(reqs)
     _mask_hang_sleeps(reqs, impl, model, 'lreset')
     ck.compare('ports_seq', reqs, impl, model)
+    for n in ([342, 1025, 5000] if ck.tier == 'quick' else [1, 341, 342, 1024, 1025, 4097, 70000]):
+        ck.evaluations += 1
+        ck.count('multi_big_child')
+        f = multi_big_child(n)
+        if f:
+            ck.oracle_fail({'multi_big_child': n}, f)
     for flag in (False, True):
         ck.evaluations += 1
         ck.count('reset_independence')
@@ -473,6 +524,8 @@ def run(ck):
 
 
 def oracle(case):
+    if 'multi_big_child' in case:
+        return multi_big_child(case['multi_big_child'])
     if 'reset_independence' in case:
         return reset_independence(case['reset_independence'])
     if 'two_threads' in case:
